@@ -96,6 +96,26 @@ def proof_status(pid):
                 axioms=sorted(set(axioms)), axiom_blocks=nblocks, bad_axioms=bad_axioms, structural=structural, wall=time.time() - t0,
                 log=out[-4000:] if r.returncode != 0 else '')
 
+def coqchk_status(pid):
+    """thorough tier: re-check the compiled property file and everything it depends on with the independent checker"""
+    t0 = time.time()
+    r = subprocess.run(['timeout', '2400', 'coqchk', '-o', '-silent', '-Q', '.', 'Droop', 'Droop.Props.%s' % pid],
+                       cwd=os.path.join(VERIF, 'coq'), stdout=subprocess.PIPE, stderr=subprocess.STDOUT)
+    out = r.stdout.decode('utf-8', 'replace')
+    axioms = []; sect = None; other = {}
+    for l in out.splitlines():
+        m = re.match(r'\* (.*?):\s*(.*)$', l.strip())
+        if m:
+            sect = m.group(1); rest = m.group(2).strip()
+            if sect != 'Axioms': other[sect] = rest
+            continue
+        if sect == 'Axioms' and l.strip():
+            axioms.append(l.strip().split('.')[-1])
+    bad = [a for a in axioms if a not in ALLOWED_AXIOMS]
+    unsafe = {k: v for k, v in other.items() if k != 'Theory' and v not in ('<none>', '')}
+    ok = r.returncode == 0 and not bad and not unsafe
+    return dict(ok=ok, axioms=axioms, bad_axioms=bad, unsafe=unsafe, wall=round(time.time() - t0, 1), log=out[-1500:] if not ok else '')
+
 TRUSTED_BASE = [
     "Coq 8.16.1 kernel (coqc; vm_compute used for finite checks and Examples; no native_compute)",
     "axioms: none declared by us; Print Assumptions is 'Closed under the global context' for every theorem except those transporting whole counts along an equality of arithmetic records (C13_guard0_*, C20_*), which depend on the standard library's functional_extensionality_dep",
